@@ -1240,7 +1240,16 @@ def run_eval_op(g, op):
         if not op.get("no_recording"):
             st.enter_context(recording_runtime(subst))
         try:
-            if name == "evaluate":
+            if name == "evaluate" and op.get("reenter"):
+                # ONE context object of the library (`NO_CACHE = labrea.cache.disabled()` kept in a constant) entered twice,
+                # nested, around the evaluation: a failure crosses both block boundaries
+                ctx = lcache.disabled() if op["reenter"] == "cache" else llogging.disabled()
+                rv = _SWALLOWED = object()
+                with ctx:
+                    with ctx:
+                        rv = obj.evaluate(o)
+                r = ["ok", "<the exception did not leave the block>" if rv is _SWALLOWED else enc(rv)]
+            elif name == "evaluate":
                 # both public entry points of an evaluation: `x.evaluate(o)` and the call syntax `x(o)`
                 _EVAL_COUNT[0] += 1
                 # (calling a dataset class is its constructor — no request is issued for the class itself — so those
@@ -1261,9 +1270,15 @@ def run_eval_op(g, op):
                 obj.validate(o)
                 r = ["ok", None]
             elif name == "keys":
-                r = ["ok", canon_keys(obj.keys(o))]
+                ks = obj.keys(o)
+                r = ["ok", canon_keys(ks)]
+                if isinstance(ks, set):
+                    ks.add("scribbled-key")       # the caller edits the set it was given (`needed |= ...`): it is the caller's own
             elif name == "explain":
-                r = ["ok", canon_keys(obj.explain(o))]
+                ks = obj.explain(o)
+                r = ["ok", canon_keys(ks)]
+                if isinstance(ks, set):
+                    ks.add("scribbled-key")
             elif name == "fingerprint":
                 r = ["ok", enc(json.loads(obj.fingerprint(o)))]
             elif name == "set_get":
